@@ -18,6 +18,9 @@ def main(seed=0, n=400):
     text += "Eval vm_compute in map f_floor %s.\n" % flist(zs)
     text += "Eval vm_compute in map f_bits %s.\n" % flist(bs)
     text += "Eval vm_compute in map f_of_Z %s.\n" % zlist([int(z) for z in zs])
+    import numpy as np
+    rs = [r.uniform(-1, 1) * 10 ** r.uniform(-50, 40) for _ in range(n)] + [float(np.float32(r.random())) * (1 + 2.0 ** -24) for _ in range(n)] + [1e-45, 7e-46, 3e-39, 3.4028235e38, 3.4028236e38, 1e39, 0.1, 1.0 + 2.0 ** -24, 1.0 + 3 * 2.0 ** -24]
+    text += "Eval vm_compute in map f_round32 %s.\n" % flist(rs)
     ok, out, err, secs = run_gen("selftest_floatfns", text)
     if not ok:
         print("coqc failed", err[-2000:]); return 1
@@ -50,6 +53,10 @@ def main(seed=0, n=400):
     print("to_Z/floor/bits mismatches", bad, nb); bad += nb
     oz = parse_flist(b[6])
     bad += sum(1 for x, a in zip(zs, oz) if float(int(x)) != a)
+    r32 = parse_flist(b[7])
+    with np.errstate(over="ignore"):
+        nb32 = sum(1 for x, a in zip(rs, r32) if float(np.float32(x)) != a)
+    print("round32 mismatches", nb32); bad += nb32
     print("selftest", "OK" if not bad else "FAILED", "(%.1fs)" % secs)
     return 1 if bad else 0
 
